@@ -118,11 +118,12 @@ def run(check, repo: Repo) -> None:
                  fail_detail=f"surface − scheme = {diff.n}")
     # guards
     for g, used in S.guards:
-        missing = sorted(set(used) - set(g))
+        # only a missing *magnitude* drops a term: a block entered with its angle alone multiplies by a zero magnitude either way
+        missing = sorted((set(used) & set(mags)) - set(g))
         extra = sorted(set(g) - set(symbols))
-        check.decide(not missing and not extra, "C12-R1", f"aberration_surface: guard {g[:2]}… lists every symbol of its block", "", mod.line(sfn),
-                     fail_detail=f"symbols used in the block but absent from its guard: {missing} (a surface given only by them is "
-                                 f"silently dropped); unknown symbols in the guard: {extra}")
+        check.decide(not missing and not extra, "C12-R1", f"aberration_surface: guard {g[:2]}… lists every magnitude of its block", "", mod.line(sfn),
+                     fail_detail=f"magnitudes used in the block but absent from its guard: {missing} (a surface given only by them is "
+                                 f"silently dropped); unknown symbols in the guard: {extra}", definite=bool(missing))
     check.floor("surface guard blocks", len(S.guards), 5)
 
     # ---- R2 gradient tables = wavelength × symbolic derivative of the surface table ------------------
@@ -142,9 +143,10 @@ def run(check, repo: Repo) -> None:
                  fail_detail=f"azimuthal gradient − λ·(1/α)·∂χ/∂φ = {(gphi - want_phi).n}: the analytic gradient used for parallax "
                              f"shifts is not the gradient of the surface for the listed terms")
     for g, used in G.guards:
-        missing = sorted(set(used) - set(g))
-        check.decide(not missing, "C12-R2", f"polar gradients: guard {g[:2]}… lists every symbol of its block", "", mod.line(gfn),
-                     fail_detail=f"symbols used in the block but absent from its guard: {missing}")
+        missing = sorted((set(used) & set(mags)) - set(g))
+        check.decide(not missing, "C12-R2", f"polar gradients: guard {g[:2]}… lists every magnitude of its block", "", mod.line(gfn),
+                     fail_detail=f"magnitudes used in the block but absent from its guard: {missing}: for a coefficient set that carries only "
+                                 f"them the surface has the term and the analytic gradient returns zero for it", definite=bool(missing))
     # Cartesian combination
     _, cfn = repo.func(f"{CP}:aberration_surface_cartesian_gradients")
     dx = [x for x in definitions(cfn, "dchi_dx") if isinstance(x, ast.AST)]
